@@ -385,6 +385,73 @@ def render_stream(r):
     return text, exp
 
 
+def nested_layout_cases():
+    """systematic layouts of a block collection nested on the next line under each kind of parent, at
+    every small indentation step, with every kind of first key / first item: (text, expected events)"""
+    def S(t, st='P'):
+        return {'k': 'S', 'style': st, 'text': t}
+    def Q(items):
+        return {'k': 'Q', 'items': items}
+    def M(pairs):
+        return {'k': 'M', 'pairs': pairs}
+    keys = [('a', S('a')), ('"q"', S('q', 'D')), ("'s'", S('s', 'S')), ('[]', Q([])), ('{}', M([])), ('["a", "b"]', Q([S('a', 'D'), S('b', 'D')])),
+            ('[a, b]', Q([S('a'), S('b')])), ('{"a": \'b\'}', M([(S('a', 'D'), S('b', 'S'))])), ('{a: b}', M([(S('a'), S('b'))])), ('[[]]', Q([Q([])])),
+            ('["a"]', Q([S('a', 'D')])), ('&x a', dict(S('a'), anchor='x')), ('&x []', dict(Q([]), anchor='x')), ('!t "q"', dict(S('q', 'D'), tag=('!', 't'))),
+            ('? a', None)]
+    out = []
+    for d in (1, 2, 3):
+        for ktext, knode in keys:
+            for second in (False, True):
+                for parent in ('map', 'seq', 'qkey', 'qval', 'deep', 'seqmap'):
+                    pad = ' ' * d
+                    if knode is None:
+                        child_lines = [pad + '? a', pad + ': c']
+                        child = M([(S('a'), S('c'))])
+                    else:
+                        child_lines = [pad + ktext + ': c']
+                        child = M([(knode, S('c'))])
+                    if second:
+                        child_lines.append(pad + 'z: 1')
+                        child = M(child['pairs'] + [(S('z'), S('1'))])
+                    if parent == 'map':
+                        text, root = 'k:\n' + '\n'.join(child_lines) + '\n', M([(S('k'), child)])
+                    elif parent == 'seq':
+                        text, root = '-\n' + '\n'.join(child_lines) + '\n- y\n', Q([child, S('y')])
+                    elif parent == 'qkey':
+                        text, root = '?\n' + '\n'.join(child_lines) + '\n: v\n', M([(child, S('v'))])
+                    elif parent == 'qval':
+                        text, root = '? x\n:\n' + '\n'.join(child_lines) + '\n', M([(S('x'), child)])
+                    elif parent == 'deep':
+                        text = 'o:\n  k:\n' + '\n'.join('  ' + l for l in child_lines) + '\n  m: n\n'
+                        root = M([(S('o'), M([(S('k'), child), (S('m'), S('n'))]))])
+                    else:
+                        text = '- k:\n' + '\n'.join('  ' + l for l in child_lines) + '\n'
+                        root = Q([M([(S('k'), child)])])
+                    exp = [('SS',), ('DS', False)]
+                    flatten(root, exp, {})
+                    exp += [('DE',), ('SE',)]
+                    out.append((text, exp))
+        # the same with a nested block sequence whose first item is each kind of node
+        for ktext, knode in keys:
+            if knode is None:
+                continue
+            for parent in ('map', 'seq', 'qval'):
+                pad = ' ' * d
+                child_lines = [pad + '- ' + ktext, pad + '- z']
+                child = Q([knode, S('z')])
+                if parent == 'map':
+                    text, root = 'k:\n' + '\n'.join(child_lines) + '\n', M([(S('k'), child)])
+                elif parent == 'seq':
+                    text, root = '-\n' + '\n'.join(child_lines) + '\n- y\n', Q([child, S('y')])
+                else:
+                    text, root = '? x\n:\n' + '\n'.join(child_lines) + '\n', M([(S('x'), child)])
+                exp = [('SS',), ('DS', False)]
+                flatten(root, exp, {})
+                exp += [('DE',), ('SE',)]
+                out.append((text, exp))
+    return out
+
+
 def parse_events(line):
     """impl evt line -> comparable events + tail"""
     from vlib import unhx, split_line
@@ -422,6 +489,26 @@ TRICKY = ['a', 'b', ' ', ' ', '\n', ':', '#', '-', '"', "'", '\\', 'é', '\U0001
 INDIC = set('-?:#&*!|>\'"%@`,[]{}')
 
 
+def fold_family(style, cont_indent):
+    """systematic multi-line presentations of four words: every combination of joins
+    (literal blank run | fold to a space | fold to 1-2 line feeds) x trailing blanks before the
+    break x blank-line contents. Yields (presentation, target)."""
+    words = ['a', 'b', 'c', 'd']
+    ind = ' ' * cont_indent
+    joins = [(' ', ' '), ('  ', '  ')]
+    for trail in ('', ' ', '\t'):
+        joins.append((trail + '\n' + ind, ' '))
+        for blank in ('', ind):
+            joins.append((trail + '\n' + blank + '\n' + ind, '\n'))
+        joins.append((trail + '\n\n' + ind + '\n' + ind, '\n\n'))
+    q = {'P': '', 'S': "'", 'D': '"'}[style]
+    for j1 in joins:
+        for j2 in joins:
+            for j3 in joins:
+                pres = q + words[0] + j1[0] + words[1] + j2[0] + words[2] + j3[0] + words[3] + q
+                yield pres, words[0] + j1[1] + words[1] + j2[1] + words[2] + j3[1] + words[3]
+
+
 def present_scalar(r, target, style, cont_indent, multiline=True):
     """Present `target` in `style` ('D' double-quoted, 'S' single-quoted, 'P' plain).
     Returns the presentation or None when this style cannot express the target here.
@@ -449,7 +536,8 @@ def present_scalar(r, target, style, cont_indent, multiline=True):
         return ' ' * (cont_indent + r.choice([0, 0, 1, 3]))
 
     def trail():
-        return '' if style == 'P' else r.choice(['', '', ' ', '  ', '\t'])
+        # blanks before a break are not content in any flow style (plain scalars included)
+        return r.choice(['', '', ' ', '  ', '\t'])
     while i < n:
         c = target[i]
         if c == '\n':
@@ -754,9 +842,15 @@ def damage(r, text, which):
     if which == 'bad-escape':
         return r.choice(['"\\q"\n', '"\\x4"\n', '"\\u12"\n', '"\\U0001"\n', 'k: "\\."\n', '- "\\xZZ"\n', '"\\'])
     if which == 'alias-no-anchor':
-        return r.choice(['*nope\n', 'a: *b\n', '- &a x\n- *b\n', '[*z]\n'])
+        # (anchors are per document: an anchor of an earlier document does not count)
+        return r.choice(['*nope\n', 'a: *b\n', '- &a x\n- *b\n', '[*z]\n', '--- &a x\n--- *a\n', '&a x\n...\n*a\n', '- &a x\n...\n- *a\n', '--- &a [x]\n...\n--- {k: *a}\n'])
     if which == 'undeclared-handle':
-        return r.choice(['!e!x y\n', '--- !m!t\na: b\n', '%TAG !a! tag:a,\n--- !b!c d\n'])
+        # (a %TAG directive is in force for its own document only: bare or explicit later documents
+        # do not inherit the handle)
+        return r.choice(['!e!x y\n', '--- !m!t\na: b\n', '%TAG !a! tag:a,\n--- !b!c d\n',
+                         '%TAG !e! tag:e,\n--- !e!a 1\n...\n!e!b 2\n', '%TAG !e! tag:e,\n--- !e!a 1\n--- !e!b 2\n',
+                         '%TAG !e! tag:e,\n--- !e!a 1\n...\n--- !e!b 2\n', '%TAG !e! tag:e,\n--- x\n...\n- !e!b 2\n',
+                         '%TAG !e! tag:e,\n--- !e!a [1]\n...\nk: !e!b 2\n', '%TAG !e! tag:e,\n---\n...\n%YAML 1.2\n--- !e!b\n'])
     if which == 'dup-yaml':
         return '%YAML 1.2\n%YAML 1.2\n---\na\n'
     if which == 'directive-no-docstart':
